@@ -142,6 +142,26 @@ fn c03_ci_is_order_independent_bounded() {
         _ => assert!(false, "entry points disagree on acceptance"),
     }
 }
+// C03 (BOUNDED, n = 4, every u8 sample, every confidence kind): ci on the data as given == ci_sorted_unchecked on the ascending
+// copy (a 5-comparator sorting network written out here, loop-free) -- one call of `ci` only, so that CBMC also finishes when
+// the sort inside `ci` is replaced by something heavier (selection); the lower Wilson rank is 0 here (p_lo * 4 < 1)
+fn cswap(a: &mut [u8; 4], i: usize, j: usize) { if a[i] > a[j] { let t = a[i]; a[i] = a[j]; a[j] = t; } }
+#[kani::proof]
+#[kani::unwind(6)]
+#[kani::stub(crate::stats::z_value, z_const)]
+fn c03_ci_is_order_statistics_n4_bounded() {
+    let data: [u8; 4] = kani::any();
+    let mut s = data;
+    cswap(&mut s, 0, 1); cswap(&mut s, 2, 3); cswap(&mut s, 0, 2); cswap(&mut s, 1, 3); cswap(&mut s, 1, 2);
+    let c = any_confidence();
+    let want = ci_sorted_unchecked(c, &s, 0.5);
+    let got = ci(c, &data, 0.5);
+    match (want, got) {
+        (Ok(x), Ok(y)) => { assert!(x == y, "ci is not the order statistics of the sample (n = 4)"); kani::cover!(data[0] > data[3] && x.is_two_sided()); }
+        (Err(_), Err(_)) => {}
+        _ => assert!(false, "ci and ci_sorted_unchecked disagree on acceptance (n = 4)"),
+    }
+}
 #[kani::proof]
 fn c09_quantile_stats_merge_exact() {
     let (a, b, c): (usize, usize, usize) = (kani::any(), kani::any(), kani::any());
